@@ -7,6 +7,7 @@ VERIF = os.path.dirname(os.path.dirname(os.path.abspath(__file__)))
 SPEC = os.path.join(VERIF, "spec")
 HARNESS = os.path.join(VERIF, "harness")
 GV = os.path.join(HARNESS, "target", "debug", "gv")
+GV_RELEASE = os.path.join(HARNESS, "target", "release", "gv")
 OUT = os.path.join(VERIF, "out")
 JAR = "/opt/veriftools/tla/tla2tools.jar:/opt/veriftools/tla/CommunityModules-deps.jar"
 NCPU = min(16, os.cpu_count() or 4)
@@ -20,11 +21,11 @@ def log(*a):
     print(*a, flush=True)
 
 
-def build_harness():
+def build_harness(release=False):
     """Rebuilds the harness (and grenad from /repo's working tree, hooks enabled)."""
     t = time.time()
     env = dict(os.environ, CARGO_NET_OFFLINE="true")
-    p = subprocess.run(["cargo", "build", "--offline"], cwd=HARNESS, env=env,
+    p = subprocess.run(["cargo", "build", "--offline"] + (["--release"] if release else []), cwd=HARNESS, env=env,
                        stdout=subprocess.PIPE, stderr=subprocess.STDOUT, text=True)
     if p.returncode != 0:
         sys.stderr.write(p.stdout[-4000:])
@@ -32,8 +33,8 @@ def build_harness():
     return time.time() - t
 
 
-def gv(args, timeout=3600):
-    p = subprocess.run([GV] + [str(a) for a in args], cwd=VERIF, stdout=subprocess.PIPE,
+def gv(args, timeout=3600, release=False):
+    p = subprocess.run([GV_RELEASE if release else GV] + [str(a) for a in args], cwd=VERIF, stdout=subprocess.PIPE,
                        stderr=subprocess.PIPE, text=True, timeout=timeout)
     if p.returncode != 0:
         raise ToolError("gv %s failed (%d): %s" % (" ".join(map(str, args)), p.returncode, p.stderr[-2000:]))
